@@ -42,6 +42,7 @@ type FuncContract struct {
 	Modifies    []string
 	Serves      []string
 	Uses        []*CExpr
+	InlineAtCalls bool // the contract is checked on the function itself; call sites inline the body
 	Inline      bool   // no contract: always inline at call sites
 	Trusted     string // non-empty: body not verified, reason
 	NotClaim    string
@@ -124,7 +125,7 @@ type Contracts struct {
 
 var clauseKeywords = map[string]bool{"requires": true, "ensures": true, "loop": true, "modifies": true, "serves": true,
 	"use": true, "inline": true, "trusted": true, "status:": true, "pure": true, "induction": true, "trigger": true,
-	"nosafety": true, "alphabet": true, "maxlen": true, "decreases": true, "ih": true, "unclaimed": true, "inlinecall": true, "callsite": true, "site": true, "havoccall": true, "ghost": true}
+	"nosafety": true, "alphabet": true, "maxlen": true, "decreases": true, "ih": true, "unclaimed": true, "inlinecall": true, "callsite": true, "site": true, "havoccall": true, "ghost": true, "inlined": true}
 
 func loadContracts(dirs map[string]string) (*Contracts, error) {
 	cs := &Contracts{Funcs: map[string]*FuncContract{}, Specs: map[string]*SpecFunc{}, Lemmas: map[string]*Lemma{}}
@@ -472,6 +473,9 @@ func (cs *Contracts) parseFunc(pkg, file string, e *rawEntry) error {
 			fc.Uses = append(fc.Uses, ex)
 		case "inline":
 			fc.Inline = true
+		case "inlined":
+			// verified on its own, but callers keep executing its body (small loop-free functions)
+			fc.InlineAtCalls = true
 		case "pure":
 			fc.Pure = true
 		case "trusted":
